@@ -86,15 +86,21 @@ class World(WsWorld):
             from autobahn.websocket.compress import (PerMessageDeflateOffer, PerMessageDeflateOfferAccept,
                                                      PerMessageDeflateResponseAccept)
 
+            # (in part of the runs both directions run without context takeover: every message has a compression context of
+            # its own - which still belongs to its direction)
+            nct = cfg["nct"] = ch.flag("no-context-takeover-both-ways", 0.35)
+
             def s_accept(offers):
                 for o in offers:
                     if isinstance(o, PerMessageDeflateOffer):
+                        if nct:
+                            return PerMessageDeflateOfferAccept(o, request_no_context_takeover=True, no_context_takeover=True)
                         return PerMessageDeflateOfferAccept(o)
 
             def c_accept(resp):
-                return PerMessageDeflateResponseAccept(resp)
+                return PerMessageDeflateResponseAccept(resp, no_context_takeover=True) if nct else PerMessageDeflateResponseAccept(resp)
             sopts["perMessageCompressionAccept"] = s_accept
-            copts["perMessageCompressionOffers"] = [PerMessageDeflateOffer()]
+            copts["perMessageCompressionOffers"] = [PerMessageDeflateOffer(request_no_context_takeover=nct)]
             copts["perMessageCompressionAccept"] = c_accept
         sfac.setProtocolOptions(**sopts)
         cfac.setProtocolOptions(**copts)
@@ -119,9 +125,9 @@ class World(WsWorld):
         # (prepared messages are framed by the factory: always masked for clients, never for
         # servers, whatever maskClientFrames / maskServerFrames say - both are legal on the wire
         # for the peers configured here)
-        c.monitor = SenderMonitor("must" if cfg["maskClient"] else "any", comp, DeflateCodec() if comp else None,
+        c.monitor = SenderMonitor("must" if cfg["maskClient"] else "any", comp, DeflateCodec(15, bool(cfg.get("nct"))) if comp else None,
                                   cfg["applyMask"])
-        s.monitor = SenderMonitor("any" if cfg["maskServer"] else "mustnot", comp, DeflateCodec() if comp else None,
+        s.monitor = SenderMonitor("any" if cfg["maskServer"] else "mustnot", comp, DeflateCodec(15, bool(cfg.get("nct"))) if comp else None,
                                   cfg["applyMask"])
         if protos:
             s.hooks["on_connect"] = lambda req: req.protocols[0] if req.protocols else None
@@ -163,6 +169,9 @@ class World(WsWorld):
                   "interject": api in ("frame", "stream") and ch.flag("whole-message-before-first-frame", 0.2)}
             if api == "frame":
                 op["cuts"] = [ch.choose(max(1, L + 1), "cut") for _ in range(ch.choose(4, "ncuts"))]
+                # the frames of one message may be written over several scheduler steps: whatever happens on the connection
+                # in between (deliveries in the other direction included) is none of the message's business
+                op["slow"] = ch.flag("frame-api-spread-over-steps", 0.3)
             elif api == "stream":
                 op["nframes"] = 1 + ch.choose(3, "nframes")
                 op["chunk"] = ch.pick((1, 7, 64, 1000, 70000), "chunk")
@@ -189,6 +198,10 @@ class World(WsWorld):
     def extra_actions(self):
         acts = []
         for ep in self.eps:
+            if getattr(ep, "inflight", None):
+                if ep.p._st == 3:
+                    acts.append((3.0, "app-next-frame:" + ep.name, lambda ep=ep: self.fw.call(self, self.continue_frames, ep, False)))
+                continue
             if ep.plan_pos < len(ep.plan) and ep.p._st == 3 and any(e[0] == "onOpen" for e in ep.events):
                 acts.append((3.0, "app:" + ep.name, lambda ep=ep: self.fw.call(self, self.exec_op, ep)))
         if self.mode == "cut" and not self.cut_done and self.run.steps > 2:
@@ -233,6 +246,9 @@ class World(WsWorld):
         pipe.buf += octets
 
     def exec_op(self, ep):
+        if getattr(ep, "inflight", None):
+            # (several operations in a row, e.g. inside onOpen(): the application finishes the message it has open first)
+            self.continue_frames(ep, True)
         op = ep.plan[ep.plan_pos]
         ep.plan_pos += 1
         p = ep.p
@@ -255,6 +271,12 @@ class World(WsWorld):
                 p.beginMessage(binary, doNotCompress=op["dnc"])
                 self.interject(ep, op)
                 prev = 0
+                if op.get("slow") and cuts:
+                    p.sendMessageFrame(payload[0:cuts[0]], sync=op["sync"])
+                    ep.inflight = {"payload": payload, "points": cuts[1:] + [L], "prev": cuts[0], "sync": op["sync"]}
+                    ep.sent.append((payload, binary))
+                    self.run.probe("frame-api-message-left-open")
+                    return
                 for c in cuts + [L]:
                     p.sendMessageFrame(payload[prev:c], sync=op["sync"])
                     prev = c
@@ -316,6 +338,25 @@ class World(WsWorld):
         ep.sent.append((payload, binary))
         if op["sync"]:
             self.run.probe("synced-write")
+
+    def continue_frames(self, ep, to_the_end):
+        """the next frame (or all remaining ones) of a frame-API message that was left open, then endMessage()"""
+        fl = ep.inflight
+        try:
+            while fl["points"]:
+                c = fl["points"].pop(0)
+                ep.p.sendMessageFrame(fl["payload"][fl["prev"]:c], sync=fl["sync"])
+                fl["prev"] = c
+                if not to_the_end:
+                    break
+            if not fl["points"]:
+                ep.p.endMessage()
+                ep.inflight = None
+                self.run.probe("frame-api")
+        except Exception as e:  # noqa
+            ep.inflight = None
+            if ep.p._st == 3:
+                self.run.violate("C01.send-raises", "frame-continued:%s" % type(e).__name__, repr(e))
 
     def interject(self, ep, op):
         """A whole message sent after beginMessage() but before the first frame of the begun message (e.g. a reply
@@ -400,9 +441,12 @@ class World(WsWorld):
             WsWorld.drain(self)
             if self.run.fatal:
                 return
+            open_msgs = [ep for ep in self.eps if getattr(ep, "inflight", None) and ep.p._st == 3]
+            for ep in open_msgs:
+                self.fw.call(self, self.continue_frames, ep, True)
             pending = [ep for ep in self.eps if ep.plan_pos < len(ep.plan) and ep.p._st == 3
                        and any(e[0] == "onOpen" for e in ep.events)]
-            if not pending:
+            if not pending and not open_msgs:
                 break
             for ep in pending:
                 self.fw.call(self, self.exec_op, ep)
